@@ -15,15 +15,26 @@
 //   -Wl,--wrap=_ZNSt6thread6detachEv
 // --wrap is link-wide: this file and the engines never use std::chrono clocks, condition variables
 // or std::thread for their own purposes.
+//
+// With -DGCS_ATOMIC_SEAM (ThreadSanitizer flavour of gcsim only) the timer thread can additionally be
+// pre-empted in the middle of a slice: under -fsanitize=thread every atomic operation in the code under
+// test is a call into the TSan runtime (__tsan_atomicN_*), and those symbols are wrapped at link time as
+// well. After an atomic operation performed by the timer thread the schedule may park it there
+// ("mid-slice"); the interpreter then runs on, statement by statement, until the schedule resumes the
+// timer. A mid-slice-parked timer still holds whatever mutexes and references it held, so the
+// interpreter's pthread_mutex_lock is wrapped too: a contended lock resumes the timer until the lock is
+// free. Interpreter code (a yield) executing on any thread but the interpreter's is reported at once.
 #pragma once
 
 #include <pthread.h>
 #include <sched.h>
 #include <time.h>
+#include <unistd.h>
 
 #include <atomic>
 #include <cerrno>
 #include <cstdint>
+#include <cstdlib>
 #include <thread>
 #include <vector>
 
@@ -38,7 +49,7 @@ constexpr int64_t kInfinite = INT64_MAX;
 
 // ---- simulator state (atomics only) ----------------------------------------------------------
 inline std::atomic<int> g_active{0};      // simulation on: wrappers intercept
-inline std::atomic<int> g_parked{0};      // timer thread is parked in a wait
+inline std::atomic<int> g_parked{0};      // 1: timer thread is parked in a wait; 2: parked mid-slice (GCS_ATOMIC_SEAM)
 inline std::atomic<int> g_wake{0};        // 0 none, 1 timeout, 2 notified
 inline std::atomic<int> g_exited{0};      // timer thread has terminated (reaped)
 inline std::atomic<int> g_started{0};     // a timer thread was started for the current evaluator
@@ -46,6 +57,7 @@ inline std::atomic<int> g_detached{0};
 inline std::atomic<int64_t> g_simNowNs{1000000000LL};
 inline std::atomic<int64_t> g_deadlineNs{0};
 inline std::atomic<uint64_t> g_waits{0};  // number of times the timer thread entered a wait
+inline std::atomic<int> g_armed{0};       // the current timer thread has reached its first wait (mid-slice pre-emption possible from then on)
 inline std::atomic<void*> g_cond{nullptr};
 inline pthread_t g_handle{};
 inline bool g_reaped = false;
@@ -60,6 +72,7 @@ struct Stats {
     bool detached = false;
     bool timerRanCollectorSuspect = false;
     int64_t injectedAtYield = -1;
+    uint64_t midSliceParks = 0, midSliceResumes = 0, contendedLocks = 0, notifyWhileMidSlice = 0;
 };
 inline Stats g_stats;
 
@@ -73,6 +86,9 @@ inline RuntimeEvaluator* ownerFromCond() {
 }
 
 inline void spinPause() { sched_yield(); }
+
+inline thread_local int t_inSeam = 0;   // scheduler code is running on this thread: the atomic/mutex wrappers pass straight through
+struct SeamGuard { SeamGuard() { ++t_inSeam; } ~SeamGuard() { --t_inSeam; } };
 
 // Wait until the timer thread is parked again or has terminated.
 inline void waitTimerQuiescent() {
@@ -102,7 +118,9 @@ inline void releaseTimer(int how) {
 }
 
 inline int parkHere(pthread_mutex_t* m, int64_t deadlineNs) {
+    SeamGuard seam;
     g_waits.fetch_add(1, RLX);
+    g_armed.store(1, RLX);
     g_deadlineNs.store(deadlineNs, RLX);
     pthread_mutex_unlock(m);
     g_wake.store(0, RLX);
@@ -120,6 +138,7 @@ inline int parkHere(pthread_mutex_t* m, int64_t deadlineNs) {
 extern "C" {
 int __real_pthread_cond_clockwait(pthread_cond_t*, pthread_mutex_t*, clockid_t, const struct timespec*);
 int __wrap_pthread_cond_clockwait(pthread_cond_t* c, pthread_mutex_t* m, clockid_t clk, const struct timespec* ts) {
+    gcs::SeamGuard seam;
     if (!gcs::g_active.load(gcs::RLX)) return __real_pthread_cond_clockwait(c, m, clk, ts);
     gcs::g_cond.store((void*)c, gcs::RLX);
     int w = gcs::parkHere(m, (int64_t)ts->tv_sec * 1000000000LL + ts->tv_nsec);
@@ -128,6 +147,7 @@ int __wrap_pthread_cond_clockwait(pthread_cond_t* c, pthread_mutex_t* m, clockid
 
 long __real__ZNSt6chrono3_V212steady_clock3nowEv();
 long __wrap__ZNSt6chrono3_V212steady_clock3nowEv() {
+    gcs::SeamGuard seam;
     if (!gcs::g_active.load(gcs::RLX)) return __real__ZNSt6chrono3_V212steady_clock3nowEv();
     return gcs::g_simNowNs.load(gcs::RLX);
 }
@@ -136,6 +156,7 @@ long __wrap__ZNSt6chrono3_V212steady_clock3nowEv() {
 // without a timeout; parks with an infinite deadline.
 void __real__ZNSt18condition_variable4waitERSt11unique_lockISt5mutexE(void*, void*);
 void __wrap__ZNSt18condition_variable4waitERSt11unique_lockISt5mutexE(void* cv, void* lockp) {
+    gcs::SeamGuard seam;
     if (!gcs::g_active.load(gcs::RLX)) { __real__ZNSt18condition_variable4waitERSt11unique_lockISt5mutexE(cv, lockp); return; }
     auto* lk = static_cast<std::unique_lock<std::mutex>*>(lockp);
     gcs::g_cond.store(cv, gcs::RLX);
@@ -153,6 +174,7 @@ void __wrap__ZNSt6thread15_M_start_threadESt10unique_ptrINS_6_StateESt14default_
     gcs::g_parked.store(0, gcs::RLX);
     gcs::g_detached.store(0, gcs::RLX);
     gcs::g_cond.store(nullptr, gcs::RLX);
+    gcs::g_armed.store(0, gcs::RLX);
     __real__ZNSt6thread15_M_start_threadESt10unique_ptrINS_6_StateESt14default_deleteIS1_EEPFvvE(self, st, dep);
     gcs::g_handle = self->native_handle();
     gcs::g_started.store(1, gcs::RLX);
@@ -184,10 +206,16 @@ struct Schedule {
     int64_t jumpAtYield = -1;           // forward clock jump of one hour at this yield
     int stallYields = 0;                // withhold a due release for this many yields (slow node)
     bool notifyLost = false;            // the notify_all that accompanies stop is lost
+    uint64_t preemptSeed = 0;           // GCS_ATOMIC_SEAM: decisions taken at the timer thread's atomic operations
+    int preemptOneIn = 0;               // park the timer mid-slice after an atomic operation with probability 1/N (0 = never)
+    int resumeOneIn = 2;                // at each yield resume a mid-slice-parked timer with probability 1/M
     int64_t injectErrorAtYield = -1;    // N10: throw BlochError(Runtime) at this yield
     int injectKind = 0;                 // 0 BlochError(Runtime); 1 a std::exception that is not a BlochError (e.g. what bad_alloc would be)
 };
 inline Schedule g_sched;
+inline pthread_t g_interp{};                 // the interpreter thread of the current run
+inline uint64_t g_preemptState = 0;          // stream consumed by the timer thread only
+inline std::atomic<uint64_t> g_midParks{0};
 inline size_t g_tickCursor = 0;
 inline uint64_t g_genState = 0;
 inline int g_stallLeft = 0;
@@ -219,6 +247,9 @@ inline void beginRun(const Schedule& s) {
     g_detached.store(0, RLX);
     g_threadOwner = nullptr;
     g_reaped = false;
+    g_interp = pthread_self();
+    g_preemptState = s.preemptSeed;
+    g_midParks.store(0, RLX);
     g_active.store(1, RLX);
 }
 
@@ -231,6 +262,7 @@ inline void endRun() {
         }
         g_stats.threadAliveAfterRun = true;
     }
+    g_stats.midSliceParks = g_midParks.load(RLX);
     g_active.store(0, RLX);
 }
 
@@ -238,10 +270,25 @@ inline bool timerThreadLeaked() { return g_started.load(RLX) && !g_exited.load(R
 
 inline void onYield(void* evp, void* stmt) {
     auto* ev = static_cast<RuntimeEvaluator*>(evp);
+    if (g_active.load(RLX) && !pthread_equal(pthread_self(), g_interp)) {
+        // a statement of the program is being executed by a thread that is not the interpreter's: the timer thread
+        // has come to run interpreter code (it can only have become the last owner of an object with a destructor)
+        static const char msg[] = "GCSIM-FATAL: interpreter_code_on_timer_thread\n";
+        ssize_t ignored = write(2, msg, sizeof msg - 1);
+        (void)ignored;
+        abort();
+    }
     uint64_t y = g_stats.yields++;
     bool timerLive = g_started.load(RLX) && !g_exited.load(RLX) && g_threadOwner == ev;
     if (g_sched.baseline) {
         ev->m_gcRequested.store(false);
+    } else if (g_started.load(RLX) && !g_exited.load(RLX) && g_parked.load(RLX) == 2) {
+        // timer parked mid-slice: simulated time passes, the timer goes on when the schedule says so
+        if (g_sched.generative && g_sched.meanIncNs > 0) g_simNowNs.store(g_simNowNs.load(RLX) + (int64_t)(genNext() % (uint64_t)(2 * g_sched.meanIncNs + 1)), RLX);
+        if (g_sched.resumeOneIn <= 1 || genNext() % (uint64_t)g_sched.resumeOneIn == 0) {
+            g_stats.midSliceResumes++;
+            releaseTimer(3);
+        }
     } else if (timerLive && g_parked.load(RLX)) {
         bool due = false;
         if (g_sched.generative) {
@@ -300,6 +347,7 @@ void __wrap__ZNSt18condition_variable10notify_allEv(void* c) {
         return;
     }
     if (g_sched.notifyLost) { g_stats.notifyLost++; return; }
+    if (g_parked.load(RLX) == 2) { g_stats.notifyWhileMidSlice++; return; }   // nobody is waiting on the condition variable: a real notify_all is a no-op here
     if (g_parked.load(RLX)) {
         g_stats.notifyDelivered++;
         releaseTimer(2);
@@ -317,6 +365,7 @@ void __wrap__ZNSt6thread4joinEv(std::thread* t) {
     for (;;) {
         waitTimerQuiescent();
         if (g_exited.load(RLX)) break;
+        if (g_parked.load(RLX) == 2) { g_stats.midSliceResumes++; releaseTimer(3); continue; }   // joining blocks the interpreter: the timer runs on
         // parked: the stop notification was lost (or never sent) - time has to pass
         int64_t dl = g_deadlineNs.load(RLX);
         if (dl == kInfinite || timeouts >= 3) {
@@ -341,3 +390,72 @@ void __wrap__ZNSt6thread4joinEv(std::thread* t) {
     }
 }
 }
+
+
+#ifdef GCS_ATOMIC_SEAM
+// ---- pre-emption of the timer thread at its atomic operations (ThreadSanitizer flavour) -------------------------
+namespace gcs {
+// called on any thread after an atomic operation of the code under test
+inline void afterAtomic() {
+    if (t_inSeam) return;
+    SeamGuard g;
+    if (!g_active.load(RLX) || g_armed.load(RLX) == 0) return;   // armed once the timer thread has parked in its first wait
+    if (pthread_equal(pthread_self(), g_interp)) return;
+    if (g_sched.baseline || g_sched.preemptOneIn <= 0) return;
+    // timer thread: one draw per atomic operation
+    uint64_t z = (g_preemptState += 0x9E3779B97F4A7C15ull);
+    z = (z ^ (z >> 30)) * 0xBF58476D1CE4E5B9ull;
+    z = (z ^ (z >> 27)) * 0x94D049BB133111EBull;
+    z ^= z >> 31;
+    if (z % (uint64_t)g_sched.preemptOneIn != 0) return;
+    if (g_midParks.load(RLX) >= 64) return;   // bounded per run
+    g_midParks.fetch_add(1, RLX);
+    g_wake.store(0, RLX);
+    g_parked.store(2, RLX);
+    while (g_wake.load(RLX) == 0) spinPause();
+    g_parked.store(0, RLX);
+    g_wake.store(0, RLX);
+}
+}  // namespace gcs
+
+extern "C" {
+#define GCS_WRAP_ATOMICS(N, T)                                                                                                   \
+    T __real___tsan_atomic##N##_load(const volatile T*, int);                                                                    \
+    T __wrap___tsan_atomic##N##_load(const volatile T* a, int mo) { T r = __real___tsan_atomic##N##_load(a, mo); gcs::afterAtomic(); return r; } \
+    void __real___tsan_atomic##N##_store(volatile T*, T, int);                                                                   \
+    void __wrap___tsan_atomic##N##_store(volatile T* a, T v, int mo) { __real___tsan_atomic##N##_store(a, v, mo); gcs::afterAtomic(); } \
+    T __real___tsan_atomic##N##_exchange(volatile T*, T, int);                                                                   \
+    T __wrap___tsan_atomic##N##_exchange(volatile T* a, T v, int mo) { T r = __real___tsan_atomic##N##_exchange(a, v, mo); gcs::afterAtomic(); return r; } \
+    T __real___tsan_atomic##N##_fetch_add(volatile T*, T, int);                                                                  \
+    T __wrap___tsan_atomic##N##_fetch_add(volatile T* a, T v, int mo) { T r = __real___tsan_atomic##N##_fetch_add(a, v, mo); gcs::afterAtomic(); return r; } \
+    T __real___tsan_atomic##N##_fetch_sub(volatile T*, T, int);                                                                  \
+    T __wrap___tsan_atomic##N##_fetch_sub(volatile T* a, T v, int mo) { T r = __real___tsan_atomic##N##_fetch_sub(a, v, mo); gcs::afterAtomic(); return r; } \
+    int __real___tsan_atomic##N##_compare_exchange_strong(volatile T*, T*, T, int, int);                                         \
+    int __wrap___tsan_atomic##N##_compare_exchange_strong(volatile T* a, T* c, T v, int mo, int fmo) { int r = __real___tsan_atomic##N##_compare_exchange_strong(a, c, v, mo, fmo); gcs::afterAtomic(); return r; } \
+    int __real___tsan_atomic##N##_compare_exchange_weak(volatile T*, T*, T, int, int);                                           \
+    int __wrap___tsan_atomic##N##_compare_exchange_weak(volatile T* a, T* c, T v, int mo, int fmo) { int r = __real___tsan_atomic##N##_compare_exchange_weak(a, c, v, mo, fmo); gcs::afterAtomic(); return r; } \
+    T __real___tsan_atomic##N##_compare_exchange_val(volatile T*, T, T, int, int);                                               \
+    T __wrap___tsan_atomic##N##_compare_exchange_val(volatile T* a, T c, T v, int mo, int fmo) { T r = __real___tsan_atomic##N##_compare_exchange_val(a, c, v, mo, fmo); gcs::afterAtomic(); return r; }
+GCS_WRAP_ATOMICS(8, char)
+GCS_WRAP_ATOMICS(32, int)
+GCS_WRAP_ATOMICS(64, long)
+#undef GCS_WRAP_ATOMICS
+
+// The interpreter must not block on a mutex held by a timer that is parked mid-slice.
+int __real_pthread_mutex_lock(pthread_mutex_t*);
+int __wrap_pthread_mutex_lock(pthread_mutex_t* m) {
+    using namespace gcs;
+    if (t_inSeam || !g_active.load(RLX) || !g_started.load(RLX) || !pthread_equal(pthread_self(), g_interp)) return __real_pthread_mutex_lock(m);
+    SeamGuard g;
+    if (g_parked.load(RLX) != 2 || g_exited.load(RLX)) return __real_pthread_mutex_lock(m);
+    for (;;) {
+        int rc = pthread_mutex_trylock(m);
+        if (rc != EBUSY) return rc;
+        if (g_parked.load(RLX) != 2) return __real_pthread_mutex_lock(m);   // not held by a parked timer: ordinary blocking lock
+        g_stats.contendedLocks++;
+        g_stats.midSliceResumes++;
+        releaseTimer(3);
+    }
+}
+}
+#endif  // GCS_ATOMIC_SEAM
